@@ -1,4 +1,6 @@
 import MdkVerif.Model.Client
+import MdkVerif.Proofs.Client
+import MdkVerif.Proofs.Store
 import MdkVerif.Proofs.Fork
 import MdkVerif.Proofs.ForkInv
 import MdkVerif.Proofs.Chain
@@ -427,6 +429,79 @@ example : p1.final.g.path = p2.final.g.path ∧ wc p1.final.g [] = wc p2.final.g
       · exact p2_ok)).2 p1 (by simp) p2 (by simp)
 
 example : p1.final.g.path = [2, 5, 6] ∧ p2.final.g.path = [2, 5, 6] ∧ p2.final.g.name = 9 ∧ p2.final.g.pending = none := by decide
+
+/-! ### 5a. stale events are refused and may be interleaved freely -/
+
+/-- **stale_refused**: an event created in a state that is not a prefix of the client's MLS path — on a
+    branch that lost, or ahead of the client — fails the outer layer (every stored exporter secret belongs
+    to a prefix of the client's path: `SecretsOK`).  Delivering it changes nothing but its OWN dedup
+    record (Failed, or already blocking) and the cache of the current epoch's exporter secret: same
+    projection (epoch, MLS state, members, group data, messages), same snapshots, same other records. -/
+theorem stale_refused (c : Cl) (e : Ev) (nx : Nat) (hg : c.hasGroup = true) (hs : SecretsOK c.g)
+    (hst : ¬ e.path <+: c.g.path) :
+    proj (deliver c e nx).1 = proj c ∧
+    ((deliver c e nx).1.g = c.g ∨ (deliver c e nx).1.g = ensureSecret c.g) ∧
+    (deliver c e nx).1.mgr = c.mgr ∧
+    (∀ m, m ≠ e.n → getRec (deliver c e nx).1 m = getRec c m) ∧
+    (∃ r, getRec (deliver c e nx).1 e.n = some r ∧ (r.state = 3 ∨ r.state = 4)) ∧
+    ((deliver c e nx).2 = .unprocessable ∨ (deliver c e nx).2 = .err eMessage) := by
+  have hq := quiet_stale 3 nx c e hg (secretsOK_ensure _ hs) hst
+  have hproj : proj (deliver c e nx).1 = proj c := by
+    rcases stale_deliverN 3 nx c e hg (secretsOK_ensure _ hs) hst with h | h
+    · show proj (deliverN 3 nx c e).1 = _
+      rw [h.1]
+    · show proj (deliverN 3 nx c e).1 = _
+      rw [h]; simp
+  refine ⟨hproj, hq.g, hq.mgr, hq.recs, ?_, ?_⟩
+  · rcases stale_deliverN 3 nx c e hg (secretsOK_ensure _ hs) hst with h | h
+    · obtain ⟨h1, r, hr, h34⟩ := h
+      exact ⟨r, by show getRec (deliverN 3 nx c e).1 e.n = _; rw [h1]; exact hr, h34⟩
+    · refine ⟨_, by show getRec (deliverN 3 nx c e).1 e.n = _; rw [h]; simp only [getRec, recordFailure, setRec]; exact Store.alookup_ainsert_self _ _ _, Or.inl rfl⟩
+  · rcases stale_deliverN 3 nx c e hg (secretsOK_ensure _ hs) hst with h | h
+    · left
+      obtain ⟨_, r, hr, h34⟩ := h
+      obtain ⟨retry, hd⟩ := deliverN_once 3 nx c e
+      show (deliverN 3 nx c e).2 = _
+      rw [hd]
+      rcases h34 with x | x <;> simp [deliverOnce, hr, x, hg]
+    · right
+      show (deliverN 3 nx c e).2 = _
+      rw [h]
+
+/-- **chain_bystander_stale**: the chain theorem for schedules that, inside every level's delivery list,
+    interleave any number of stale events (`StalePath`: created in a state that is neither a prefix of the
+    level's parent path nor a child of it by one of the level's commits — e.g. descendants of a branch
+    that lost at an earlier level), with event numbers of their own -/
+theorem chain_bystander_stale (c : Cl) (Ls : List Level) (ls : List (List Ev)) (nx : Nat)
+    (hg : c.hasGroup = true) (hr : 1 ≤ c.retention) (hsec : SecretsOK c.g) (hbelow : Below c)
+    (hch : ChainEv c.id c.g.admins c.g.path Ls)
+    (hu : ∀ e ∈ evs Ls, getRec c e.n = none ∧ e.cipher ∉ c.g.consumed)
+    (hw : LevelWiseS (evs Ls) c.g.path Ls ls) :
+    (run nx c ls.flatten).g.path = c.g.path ++ Ls.map (·.1.cipher) ∧
+    wc (run nx c ls.flatten).g [] = wc (chainG c.maxPast c.g (Ls.map (·.1))) [] ∧
+    (∀ L ∈ Ls, (getRec (run nx c ls.flatten) L.1.n).map (·.state) = some 2) ∧
+    (∀ L ∈ Ls, ∀ e ∈ L.2, e ≠ L.1 →
+      ∃ r, getRec (run nx c ls.flatten) e.n = some r ∧ (r.state = 3 ∨ r.state = 4)) := by
+  have h := chain_rest_mixed nx (evs Ls) Ls c ls ⟨hg, hr, hsec, hbelow⟩ hch (fun _ h => h) hu hw
+  exact ⟨h.path, h.g, h.win, fun L hL e he hne => h.lose L hL e he hne (chainEv_foreign hch L hL e he)⟩
+
+/-- a child of the loser A (created on the branch [1] the client left for good after level 1) -/
+def hA : Ev := { n := 7, ts := 25, idnum := 1, cipher := 7, sender := 3, path := [1], kind := .commit (.setName 8) [] }
+
+/-- non-vacuity: `hA` offered before, between and after the commits of levels 2 and 3 -/
+example : (run 0 b2 [[eA, eC, eA, eB], [hA, fA, fB, hA, fA], [gA, hA, gA]].flatten).g.path = b2.g.path ++ chain3.map (·.1.cipher) :=
+  (chain_bystander_stale b2 chain3 [[eA, eC, eA, eB], [hA, fA, fB, hA, fA], [gA, hA, gA]] 0 rfl (by decide)
+    b2_secrets b2_below b2_chain (by decide) (by decide)).1
+
+example : (run 0 b2 [[eA, eC, eA, eB], [hA, fA, fB, hA, fA], [gA, hA, gA]].flatten).g.path = [2, 5, 6] ∧
+    (getRec (run 0 b2 [[eA, eC, eA, eB], [hA, fA, fB, hA, fA], [gA, hA, gA]].flatten) 7).map (·.state) = some 3 ∧
+    (deliver (run 0 b2 [eA, eB]) hA 0).2 = .err eMessage ∧
+    proj (deliver (run 0 b2 [eA, eB]) hA 0).1 = proj (run 0 b2 [eA, eB]) := by decide
+
+/-- the hypothesis matters: offered while the client is still ON the losing branch (before the better
+    sibling B arrives), the child of A is not stale — it is applied, and the client is two epochs down the
+    losing branch (see `depth2_rollback` for what happens next) -/
+example : (run 0 b2 [eA, hA]).g.path = [1, 7] := by decide
 
 /-! ### 6. the full statement (every schedule) and its refutation -/
 
